@@ -91,12 +91,16 @@ func TestExp(t *testing.T) {
 	debugStep = func(c *seqCase) {
 		if len(c.log) == 19 {
 			cut = append([]call{}, tr.calls...)
+			x := ""
+			tr.Store.Seek(storage.SeekRange{Prefix: []byte{0x70}}, func(k, v []byte) bool { x += fmt.Sprintf(" %x=%s", k, v); return true })
+			fmt.Println("harness state after lossy persist:", x)
 		}
 	}
 	runSeqCase(run, 777, t.TempDir())
 	fmt.Println("calls", len(cut))
 	bad := replay(t, cut, false)
 	fmt.Println("replayed:", bad)
+	return
 	// minimise: drop calls one at a time while the final content stays the same (the lossy one)
 	cur := cut
 	for i := 0; i < len(cur); {
